@@ -27,6 +27,7 @@ import (
 	"os/exec"
 	"path/filepath"
 	"regexp"
+	"sort"
 	"strings"
 	"sync/atomic"
 	"testing"
@@ -190,6 +191,7 @@ type raceInfo struct {
 	Kind   string   // data race | concurrent map | fatal error | panic
 	Head   string   // first line of the report
 	Frames []string // pandora frames (function names), top first, of all stacks of the first report
+	Tops   []string // innermost pandora frame of each stack
 	Text   string
 }
 
@@ -220,15 +222,33 @@ func parseCrash(out string) *raceInfo {
 	}
 	ri := &raceInfo{Kind: kind, Text: text}
 	ri.Head = strings.SplitN(text, "\n", 2)[0]
+	// race reports: unindented header lines ("Read at ..", "Previous write at ..", "Goroutine N (running) created at:")
+	// followed by frames indented by two spaces; fatal errors: "goroutine N [..]:" followed by unindented frames.
+	gotTop, creation := false, false
 	for _, ln := range strings.Split(text, "\n") {
 		fn := ""
-		if m := frameRe.FindStringSubmatch(ln); m != nil {
+		if m := frameRe.FindStringSubmatch(ln); m != nil && kind == "data race" {
 			fn = m[1]
-		} else if kind != "data race" && strings.Contains(ln, "(") && !strings.HasPrefix(ln, "\t") && !strings.HasPrefix(ln, " ") {
-			fn = ln[:strings.Index(ln, "(")] // goroutine traces of fatal errors: "pkg.func(args)"
+		} else if kind != "data race" && strings.Contains(ln, "(") && !strings.HasPrefix(ln, "\t") && !strings.HasPrefix(ln, " ") && !strings.HasPrefix(ln, "goroutine ") {
+			fn = ln[:strings.Index(ln, "(")]
 		}
-		if strings.Contains(fn, "github.com/yandex/pandora/") {
-			ri.Frames = append(ri.Frames, strings.TrimPrefix(fn, "github.com/yandex/pandora/"))
+		if fn == "" {
+			if strings.TrimSpace(ln) == "" {
+				gotTop = false // next stack
+			} else if !strings.HasPrefix(ln, " ") && !strings.HasPrefix(ln, "\t") {
+				gotTop = false
+				creation = strings.HasPrefix(ln, "Goroutine ")
+			}
+			continue
+		}
+		if creation || !strings.Contains(fn, "github.com/yandex/pandora/") {
+			continue
+		}
+		short := strings.TrimPrefix(fn, "github.com/yandex/pandora/")
+		ri.Frames = append(ri.Frames, short)
+		if !gotTop {
+			gotTop = true
+			ri.Tops = append(ri.Tops, short)
 		}
 	}
 	return ri
@@ -266,7 +286,8 @@ func classify(msg string, ri *raceInfo, res *Result) string {
 }
 
 type outcome struct {
-	err     error
+	err     error  // stable message (no addresses, counters or ids)
+	detail  string // everything else
 	finding string
 	res     *Result
 	race    *raceInfo
@@ -321,20 +342,49 @@ func runChild(c Case, rounds int) outcome {
 		return outcome{err: fmt.Errorf("harness: child did not finish within 300s\n%s", tail(out, 3000)), res: res}
 	}
 	if ri := parseCrash(out); ri != nil {
-		msg := fmt.Sprintf("%s in the child process running this pool: %s | pandora frames: %s\n%s", ri.Kind, ri.Head, strings.Join(firstN(ri.Frames, 6), " <- "), ri.Text)
-		return outcome{err: errors.New(msg), finding: classify(msg, ri, res), res: res, race: ri}
+		// the message must not depend on addresses / goroutine ids: rapid only shrinks a failure it can reproduce verbatim
+		msg := fmt.Sprintf("%s in the child process running this pool; top pandora frames of the conflicting stacks: %s", ri.Kind, strings.Join(ri.topFrames(), " / "))
+		return outcome{err: errors.New(msg), detail: ri.Text, finding: classify(msg, ri, res), res: res, race: ri}
 	}
 	if runErr != nil || res == nil {
-		return outcome{err: fmt.Errorf("child process ended unexpectedly (%v) without a result\n%s", runErr, tail(out, 3000)), res: res}
+		return outcome{err: fmt.Errorf("child process ended unexpectedly (%v) without a result", runErr), detail: tail(out, 4000), res: res}
 	}
 	if res.HarnessErr != "" {
 		return outcome{err: fmt.Errorf("harness: %s", res.HarnessErr), res: res}
 	}
 	if len(res.Violations) > 0 {
-		msg := strings.Join(res.Violations, "\n")
-		return outcome{err: fmt.Errorf("%s\n--- ammo / scenario file ---\n%s", msg, res.File), finding: classify(msg, nil, res), res: res}
+		full := strings.Join(res.Violations, "\n")
+		return outcome{err: errors.New(stable(res.Violations[0])), detail: full + "\n--- ammo / scenario file ---\n" + res.File, finding: classify(full, nil, res), res: res}
 	}
 	return outcome{res: res}
+}
+
+var numRe = regexp.MustCompile(`0x[0-9a-fA-F]+|[0-9a-f]{8}-[0-9a-f]{4}-[0-9a-f]{4}-[0-9a-f]{4}-[0-9a-f]{12}|\d+`)
+
+// stable replaces run-dependent numbers of a message by '#'.
+func stable(msg string) string {
+	msg = strings.SplitN(msg, "\n", 2)[0]
+	if len(msg) > 600 {
+		msg = msg[:600]
+	}
+	return numRe.ReplaceAllString(msg, "#")
+}
+
+// topFrames: the innermost pandora frame of every stack of the report (sorted, unique).
+func (ri *raceInfo) topFrames() []string {
+	seen := map[string]bool{}
+	var out []string
+	for _, f := range ri.Tops {
+		if !seen[f] {
+			seen[f] = true
+			out = append(out, f)
+		}
+	}
+	sort.Strings(out)
+	if len(out) == 0 {
+		out = []string{"(none: " + ri.Head + ")"}
+	}
+	return out
 }
 
 func firstN(s []string, n int) []string {
@@ -380,8 +430,10 @@ func checkWith(c Case, o *vf.Obs, r *vf.Run) error {
 	}
 	sawFailure.Store(true)
 	if oc.race != nil {
-		o.Note("race_report", oc.race.Text)
-		o.Note("pandora_frames", oc.race.Frames)
+		o.Note("pandora_frames", firstN(oc.race.Frames, 12))
+	}
+	if oc.detail != "" {
+		o.Note("detail", oc.detail)
 	}
 	if oc.res != nil {
 		o.Note("child_result", oc.res)
